@@ -4,12 +4,7 @@
 
 package ord
 
-// Assumption: an Unlocker computes an unlocking script and writes no memory that existed before the call (in particular it
-// does not modify the transaction it is handed). Not checked of the library's own implementation (unlocker.Simple calls
-// the external signing code).
-//@ ifaces ^bt\.Unlocker\.
-//@   assigns
-//@   trusted "an Unlocker writes no memory that existed before the call"
+// (the assumed contract of bt.Unlocker is in the root package's contracts file)
 
 //@ func ord.(*ValidateListingArgs).Validate
 //@   bytes token
